@@ -16,6 +16,13 @@ from specs import nist
 import peptacular as pt
 
 
+def _plain(k):
+    """'13C' -> 'C', 'D' / 'T' -> 'H'"""
+    if k in ('D', 'T'):
+        return 'H'
+    return k.lstrip('0123456789')
+
+
 def element_dist(el, n):
     """exact distribution of n atoms of el: {(neutron offset, mass): abundance}"""
     isos = nist.ISOTOPES[el]
@@ -86,7 +93,7 @@ def case(inp):
     if integer and not pruned and not neutron:
         mono = float(nist.comp_mass({k: v for k, v in comp.items()}, True))
         tolm = natoms * 10.0 ** (-res) + 1e-6 + (0.5 * 10.0 ** (-prec) if prec is not None else 0)
-        chnops = all(k in ('C', 'H', 'N', 'O', 'P', 'S', 'e', 'p', 'n') for k in comp)
+        chnops = all(_plain(k) in ('C', 'H', 'N', 'O', 'P', 'S', 'e', 'p', 'n') for k in comp)
         if chnops and abs(dist[0][0] - mono) > tolm:
             return False, ('lightest peak at the monoisotopic mass incl. e/p/n', mono), dist[0][0], None
         avg = float(nist.comp_mass({k: v for k, v in comp.items()}, False))
@@ -101,7 +108,16 @@ def case(inp):
             tol_round = (full[-1][0] - full[0][0]) * len(full) * 0.5 * 10.0 ** (-prec) / min(tot, ftot)
         if abs(mean - avg) > tolm + 2e-4 * max(1, natoms / 50) + tol_round:
             return False, ('abundance-weighted mean equals the average mass', avg), mean, None
-    if not integer and not pruned and all(k in ('C', 'H', 'N', 'O', 'P', 'S', 'e', 'p', 'n') for k in comp) and \
+    if integer and not pruned and neutron and kw.get('output_masses_for_neutron_offset') and \
+            all(_plain(k) in ('C', 'H', 'N', 'O', 'P', 'S', 'e', 'p', 'n') for k in comp):
+        mono = float(nist.comp_mass({k: v for k, v in comp.items()}, True))
+        tolm = natoms * 10.0 ** (-res) + 1e-5 + (0.5 * 10.0 ** (-prec) if prec is not None else 0)
+        if abs(dist[0][0] - mono) > tolm:
+            return False, ('neutron-offset view with output masses: lightest peak at the monoisotopic mass', mono), dist[0][0], None
+    if integer and not pruned and neutron and not kw.get('output_masses_for_neutron_offset') and dist[0][0] != 0 and \
+            all(_plain(k) in ('C', 'H', 'N', 'O', 'P', 'S', 'e', 'p', 'n') for k in comp):    # (elements whose lightest isotope is the reference one)
+        return False, ('neutron-offset view: offsets are counted from the lightest peak (0)', 0), dist[0][0], None
+    if not integer and not pruned and all(_plain(k) in ('C', 'H', 'N', 'O', 'P', 'S', 'e', 'p', 'n') for k in comp) and \
             (not neutron or kw.get('output_masses_for_neutron_offset')):
         mono = float(nist.comp_mass({k: v for k, v in comp.items()}, True))
         tolm = natoms * 10.0 ** (-res) + 1e-5 + (0.5 * 10.0 ** (-prec) if prec is not None else 0)
@@ -170,7 +186,9 @@ def run(rec, tier, seed):
     comps = [dict(C=6, H=12, O=6), dict(C=2, H=6, O=1), dict(C=1), dict(H=2, O=1), dict(C=2, H=5, N=1, O=2, S=1), dict(P=2, O=5), dict(P=1, H=3),
              dict(C=2, H=6, e=-1), dict(C=2, H=6, p=1, e=-1), dict(C=3, H=8, n=2), dict(S=2), dict(N=2, H=4, O=3), dict(C=50, H=71, N=13, O=12),
              dict(C=200, H=200), dict(C=10.5, H=20.25, O=3), dict(C=2, H=6.5, e=-1), dict(C=0, H=2, O=1), dict(C=4, H=4, Se=1), dict(C=2, H=3, Cl=3),
-             dict(C=1, H=3, Br=1), dict(C=10, H=10, Fe=1)]
+             dict(C=1, H=3, Br=1), dict(C=10, H=10, Fe=1),
+             # isotope-labelled entries (single-isotope species): the neutron-offset view starts at the same lightest peak
+             {'13C': 2, 'H': 4}, {'D': 3, 'C': 1, 'H': 1, 'O': 1}, {'13C': 6, '15N': 2, 'H': 12, 'O': 2, 'p': 1}, {'15N': 1, 'C': 2, 'H': 5}]
     for _ in range(40 if tier == 'quick' else 1200):
         c = {}
         for el in rnd.sample(['C', 'H', 'N', 'O', 'S', 'P'], rnd.randint(1, 4)):
